@@ -10,6 +10,7 @@
    INTERFACE for other models (URI, FS):
      normalizePath      : bytes -> bytes            (* normalizePath(dst, src): value of the returned slice; dst is irrelevant *)
      normalizePath_opt  : bytes -> option bytes     (* the same with the fuel visible *)
+     norm_tail          : bytes -> option bytes     (* the passes after percent-decoding *)
      addLeadingSlash, decodeArgAppendNoPlus : bytes -> bytes -> bytes
      hasPrefix, hasSuffix, index, indexByte, lastIndex, lastIndexByte  (* package bytes *)
    Importers must list "C26" in their props "gen" (this file reads Gen/GenC26.v). *)
@@ -160,11 +161,10 @@ Definition trailingDotDot (b : bytes) : bytes :=
   | None => b
   end.
 
-(* func normalizePath(dst, src []byte) []byte — filepath.Separator == '/' (the `== '\\'` block is dead) *)
-Definition normalizePath_opt (src : bytes) : option bytes :=
-  let dst := addLeadingSlash [] src in
-  let dst := decodeArgAppendNoPlus dst src in
-  match slashLoop (S (length dst)) [] dst with
+(* everything in normalizePath after `dst = decodeArgAppendNoPlus(dst, src)`; d = dst at that point.
+   filepath.Separator == '/' (the `== '\\'` block is dead on non-Windows builds) *)
+Definition norm_tail (d : bytes) : option bytes :=
+  match slashLoop (S (length d)) [] d with
   | None => None
   | Some b =>
       match indexByte b DOT with
@@ -181,6 +181,12 @@ Definition normalizePath_opt (src : bytes) : option bytes :=
           end
       end
   end.
+
+(* func normalizePath(dst, src []byte) []byte *)
+Definition normalizePath_opt (src : bytes) : option bytes :=
+  let dst := addLeadingSlash [] src in
+  let dst := decodeArgAppendNoPlus dst src in
+  norm_tail dst.
 
 Definition normalizePath (src : bytes) : bytes :=
   match normalizePath_opt src with Some r => r | None => [] end.
